@@ -196,8 +196,10 @@ def seeded(case):
     narrowed = dict(case, seeds=[seed])
     try:
       log = []
+      # the seed may be any integer type (np.random.randint / array indexing hand out NumPy integers)
+      seed_in = {'int': int, 'int64': np.int64, 'uint32': np.uint32, 'int32': np.int32}[case.get('seed_type', 'int')](seed)
       hp = cds.ShuffleRepeatBatchHParams(batch_size=b, num_epochs=ep, num_steps=st, drop_remainder=drop,
-                                         seed=seed, skip_shuffle=skip)
+                                         seed=seed_in, skip_shuffle=skip)
       with seams.client_datasets_rng(lambda s=None, log=log: seams.RecordingRandomState(s, log)):
         view = ds.shuffle_repeat_batch(hp)
         batches = take(view, k, want is None)
@@ -216,8 +218,8 @@ def seeded(case):
       next(it0, None)  # an abandoned iteration of the same view must not influence the next ones
       del it0
       view2 = ds.shuffle_repeat_batch(batch_size=b, num_epochs=ep, num_steps=st, drop_remainder=drop, seed=seed,
-                                      skip_shuffle=skip)
-      view3 = ds.shuffle_repeat_batch(batch_size=b, num_epochs=ep, num_steps=st, drop_remainder=drop, seed=seed,
+                                      skip_shuffle=skip)   # plain Python int: the same stream as any integer type
+      view3 = ds.shuffle_repeat_batch(batch_size=b, num_epochs=ep, num_steps=st, drop_remainder=drop, seed=seed_in,
                                       skip_shuffle=skip)
       it3 = iter(view3)
       next(it3, None)  # the view's very first iteration is abandoned
@@ -390,6 +392,15 @@ def plan(ctx):
     for skip in (False, True):
       se.append({'N': n, 'B': b, 'epochs': ep, 'steps': st, 'drop': drop, 'skip': skip, 'seeds': seeds,
                  'chain': n % 2 == 1})
+  # NumPy-typed seeds, and dataset sizes around the 2**15 / 2**16 boundaries of narrow index types
+  for stype in ('int64', 'uint32', 'int32'):
+    for n, b in ((5, 2), (7, 3)):
+      for ep, st in ((2, None), (None, 5)):
+        se.append({'N': n, 'B': b, 'epochs': ep, 'steps': st, 'drop': False, 'skip': False, 'seeds': seeds[:3], 'chain': False,
+                   'seed_type': stype})
+  for n in ((32767, 32769, 40000, 65535, 65537) if th else (32769, 65535)):
+    for skip in (False, True):
+      se.append({'N': n, 'B': 4096, 'epochs': 2, 'steps': None, 'drop': False, 'skip': skip, 'seeds': seeds[:1], 'chain': False})
   # the same streams over datasets that were obtained by slicing a larger dataset (stepped, reversed, nested slices)
   for via in VIAS:
     for _, b, ep, st, drop in configs([0], [1, 2, 3, 4], [None, 1, 2], [None, 2, 5] if th else [None, 5], ):
